@@ -4,7 +4,8 @@ from store_common import replay_store, run_store, run_store_nat
 from seq_common import run_seq
 
 PROPERTY = 'C09'
-PROPS = ['SalsaVerif.Props.C09']
+GEN = ['LogicIntern']
+PROPS = ['SalsaVerif.Props.C09', 'SalsaVerif.Props.GenLogicIntern']
 EXPLANATION = ('Theorems about the Lean model of the interner (RevisionQueue exactly as coded, one shard with its LRU list, hit / miss / '
                'reuse scan, durability maximum, staleness): the queue holds the n most recent distinct revisions; reuse only of LOW-durability, '
                'stale values of a collectable type once the queue is primed; immortal otherwise. For every history of intern / validate / '
